@@ -1144,10 +1144,15 @@ class AirTouch4(pyairtouch.api.AirTouch):
             except TimeoutError:
                 _LOGGER.debug("Group status timed out, requesting update")
                 if self._socket.is_connected:
-                    await self._socket.send(
-                        message=group_status_msg.GroupStatusRequest(),
-                        retry_policy=pyairtouch.comms.socket.RETRY_CONNECTED,
-                    )
+                    try:
+                        await self._socket.send(
+                            message=group_status_msg.GroupStatusRequest(),
+                            retry_policy=pyairtouch.comms.socket.RETRY_CONNECTED,
+                        )
+                    except pyairtouch.comms.socket.QueueOverflowError:
+                        # The socket still has a backlog of messages to send.
+                        # Skip this request: the exception must not end the loop.
+                        _LOGGER.debug("Message queue is full, request not sent")
 
 
 async def _notify_subscribers(callbacks: Iterable[Awaitable[Any]]) -> None:
